@@ -169,15 +169,7 @@ def check(ctx):
     caller_rules(ctx, 'R2')
 
     # ---- R4: removal predicate ----------------------------------------------
-    rm = m.func(CF, '_IncomingPacketHandler.remove_header_callback')
-    params = rm.params
-    want = {'port': 'port', 'port_mask': 'port_mask', 'channel': 'channel', 'channel_mask': 'channel_mask', 'callback': 'cb'}
-    sites = removal_sites(rm)
-    ctx.need(sites is not None, 'remove_header_callback: removal idiom not recognised')
-    for key, keys in sites:
-        for field, par in want.items():
-            ok = keys.get(field) == par and par in params
-            ctx.inst('R4', rm, 'remove-eq:' + field, ok, 'an entry may be dropped only if entry.%s == %s; equalities that hold for a dropped entry: %s' % (field, par, keys))
+    removal_predicate_rules(ctx, 'R4')
 
     # ---- R7: the library's own all-packet callback cannot raise on a well-formed table (shared with C10.R4) ------
     from .c10 import pattern_table_rules
@@ -242,6 +234,23 @@ def check(ctx):
             why = 'add_header_callback returns at line %d without recording a registration that differs from the existing one (only some of the five fields are compared)' % n.line
     ctx.inst('R6', add, 'every-distinct-registration-recorded', okreg, why)
     port_registration_rules(ctx, 'R6')
+
+
+def removal_predicate_rules(ctx, rule='R4'):
+    """remove_header_callback drops an entry exactly when it EQUALS (==, the comparison bound methods support) the arguments on all five
+    fields.  Shared with C02/C03: a finished TocFetcher unregisters a bound method; if that never matches, stale fetchers signal
+    completion in the next session."""
+    m = ctx.model
+    rm = m.func(CF, '_IncomingPacketHandler.remove_header_callback')
+    params = rm.params
+    want = {'port': 'port', 'port_mask': 'port_mask', 'channel': 'channel', 'channel_mask': 'channel_mask', 'callback': 'cb'}
+    sites = removal_sites(rm)
+    ctx.need(sites is not None, 'remove_header_callback: removal idiom not recognised')
+    for key, keys in sites:
+        for field, par in want.items():
+            ok = keys.get(field) == par and par in params
+            ctx.inst(rule, rm, 'remove-eq:' + field, ok, 'an entry may be dropped only if entry.%s == %s (equality, not identity: callbacks are bound methods); '
+                     'equalities that hold for a dropped entry: %s' % (field, par, keys))
 
 
 def port_registration_rules(ctx, rule='R6'):
